@@ -172,7 +172,10 @@ def replay_inflated(col, item):
     P = [tuple(p) for p in case["P"]]
     S = [tuple(p) for p in case["S"]]
     rows = [r for r in case["rows"] if r[0] >= 1 and r[1] <= 1]
-    rows = sorted(rows, key=lambda r: (len(r[4]) == 0, (r[0] + r[1] + r[2] + n) % 5))[:2]
+    # (with bins narrower than max_interval - bin_factor < 1 - the rows whose pairs are furthest apart in time come first:
+    # their secondaries lie more than one bin outside the primary's bin)
+    far = (lambda r: -max([abs(e[2]) for e in r[4]] or [0])) if n % 5 in (2, 4) else (lambda r: 0)
+    rows = sorted(rows, key=lambda r: (len(r[4]) == 0, far(r), (r[0] + r[1] + r[2] + n) % 5))[:2]
     for row in rows:
         conf = {"embedding": "equator", "shape": ["linear", "grid2", "grid"][n % 3], "sp": n % 5, "bin_factor": [1, 2, 0.5, 3, 0.25][n % 5], "magnitude_factor": 10,
                 "leaf_size": 40, "inflated": True, "T": T, "sparse_ticks": n % 2 == 1}
